@@ -31,8 +31,30 @@ PROP = "C10"
 # ------------------------------------------------------------------------------------------------
 # helpers
 # ------------------------------------------------------------------------------------------------
+def _dealias(o, stack=()):
+    """an equal value in which no object occurs twice (cycles excepted): equality of VALUES does not depend on whether two
+    positions hold the same object or two equal ones, whereas the canonical form (3.1) deliberately does"""
+    if id(o) in stack:
+        return o
+    st = stack + (id(o),)
+    if type(o) is list:
+        return [_dealias(x, st) for x in o]
+    if type(o) is tuple:
+        return tuple(_dealias(x, st) for x in o)
+    if type(o) is dict:
+        return {k: _dealias(v, st) for k, v in o.items()}
+    if hasattr(type(o), "__spec_class__") and not isinstance(o, type):
+        try:
+            clone = object.__new__(type(o))
+            clone.__dict__.update({k: _dealias(v, st) for k, v in vars(o).items()})
+            return clone
+        except Exception:
+            return o
+    return o
+
+
 def values_equal(a, b):
-    return snap.canon([a]) == snap.canon([b])
+    return snap.canon([_dealias(a)]) == snap.canon([_dealias(b)])
 
 
 def expected_equal(x, y, md):
